@@ -30,6 +30,11 @@ type scenario struct {
 	EP         *vlib.EntryPoint
 	LevelWr    bool
 	NilCtx     bool
+	// DebugLate: the debug-mode change happens after the logger under test got its level
+	// (the gate must consult the process-wide mode at the time of the call)
+	DebugLate bool
+	// DebugOffAgain: debug mode is switched on and off again before the call
+	DebugOffAgain bool
 }
 
 func levelKind(l slog.Level, m *vlib.LevelModel) string {
@@ -88,15 +93,20 @@ func run(t vlib.TB, test string, sc scenario) {
 	}
 
 	debug := false
-	switch sc.DebugHow {
-	case "explicit":
-		is.SetDebugMode(true)
-		debug = true
-	case "side-effect":
-		other := slog.New("other")
-		other.SetLevel(slog.DebugLevel) // documented side effect: switches process-wide debug mode on
-		other.SetLevel(slog.ErrorLevel)
-		debug = true
+	setDebug := func() {
+		switch sc.DebugHow {
+		case "explicit":
+			is.SetDebugMode(true)
+			debug = true
+		case "side-effect":
+			other := slog.New("other")
+			other.SetLevel(slog.DebugLevel) // documented side effect: switches process-wide debug mode on
+			other.SetLevel(slog.ErrorLevel)
+			debug = true
+		}
+	}
+	if !sc.DebugLate {
+		setDebug()
 	}
 	lg.SetLevel(sc.L)
 	if sc.L == slog.DebugLevel {
@@ -105,6 +115,13 @@ func run(t vlib.TB, test string, sc scenario) {
 		} else {
 			debug = true
 		}
+	}
+	if sc.DebugLate {
+		setDebug()
+	}
+	if sc.DebugOffAgain && debug {
+		is.SetDebugMode(false)
+		debug = false
 	}
 	if is.DebugMode() != debug {
 		t.Fatalf("harness: debug mode is %v, expected %v", is.DebugMode(), debug)
@@ -151,7 +168,7 @@ func run(t vlib.TB, test string, sc scenario) {
 	if clause != "plain-order" || sc.EP.Kind != "verb" {
 		key = fmt.Sprintf("%s|%s|%s|%s|%v", clause, sc.EP.Name, lk, rk, want)
 	}
-	vlib.Case(test, key, "clause="+clause, "ep="+sc.EP.Kind, "L="+lk, "r="+rk, fmt.Sprintf("admit=%v", want), "debug="+sc.DebugHow)
+	vlib.Case(test, key, "clause="+clause, "ep="+sc.EP.Kind, "L="+lk, "r="+rk, fmt.Sprintf("admit=%v", want), "debug="+sc.DebugHow, fmt.Sprintf("debugLate=%v", sc.DebugLate))
 	if key != "" && vlib.WantSample(test+"/"+clause) {
 		vlib.Sample(test+"/"+clause, map[string]any{"entry": sc.EP.Name, "logger": sc.LoggerKind, "L": int(sc.L), "r": int(sc.R),
 			"debug": sc.DebugHow, "registry": sc.Regs, "admitted": want})
@@ -207,6 +224,8 @@ func TestAdmissionGenerated(t *testing.T) {
 		sc.EP = eps[rapid.IntRange(0, len(eps)-1).Draw(t, "ep")]
 		sc.LevelWr = rapid.IntRange(0, 3).Draw(t, "levelwriter") == 0
 		sc.NilCtx = rapid.Bool().Draw(t, "todoCtx")
+		sc.DebugLate = rapid.Bool().Draw(t, "debugModeChangedAfterSetLevel")
+		sc.DebugOffAgain = rapid.IntRange(0, 3).Draw(t, "debugOffAgain") == 0
 		run(t, "TestAdmissionGenerated", sc)
 	})
 }
@@ -223,6 +242,12 @@ func TestAdmissionMatrix(t *testing.T) {
 					for _, lk := range []string{"root-iface", "child"} {
 						run(t, "TestAdmissionMatrix", scenario{DebugHow: dbg, LoggerKind: lk, L: L, R: R, EP: ep})
 						n++
+						if R == slog.DebugLevel {
+							// the same cell with the mode switched after the level was set / switched off again
+							run(t, "TestAdmissionMatrix", scenario{DebugHow: dbg, LoggerKind: lk, L: L, R: R, EP: ep, DebugLate: true})
+							run(t, "TestAdmissionMatrix", scenario{DebugHow: dbg, LoggerKind: lk, L: L, R: R, EP: ep, DebugOffAgain: true})
+							n += 2
+						}
 					}
 				}
 			}
